@@ -3,7 +3,7 @@
     within len(s) iterations (the fuel is never exhausted), and parseKVSlice
     returns maps or an error for every input. *)
 From Coq Require Import String List NArith Bool Lia Arith.
-From Fabio Require Import Lib.Bytes Model.FlagSet Model.KVSlice.
+From Fabio Require Import Lib.Outcome Lib.Bytes Model.FlagSet Model.KVSlice.
 Import ListNotations.
 
 Definition tok_n (t : item * str * nat) : nat := snd t.
@@ -97,3 +97,42 @@ Example kvslice_roundtrip_examples :
   parse_kvslice (rs "=x") = KErr (bs "=") /\
   parse_kvslice (rs "") = KOk [].
 Proof. vm_compute. repeat split. Qed.
+
+(* ---- degenerate inputs ---- *)
+(* an input made of separators only holds no listener: parseKVSlice returns nil, nil *)
+Lemma parse_loop_separators : forall s fuel,
+  Forall (fun c => c = 44%N \/ c = 59%N) s -> (length s <= fuel)%nat ->
+  parse_loop fuel s pst0 = KOk [].
+Proof.
+  induction s as [|c s IH]; intros fuel Hall Hl.
+  - destruct fuel; reflexivity.
+  - destruct fuel as [|f]; [cbn in Hl; lia|].
+    inversion Hall as [|? ? Hc Hs]; subst. cbn [length] in Hl.
+    destruct Hc as [-> | ->]; cbn [parse_loop]; unfold lex; cbn [lex_loop is_comma is_semicolon N.eqb Pos.eqb];
+      cbn [length Nat.ltb Nat.leb pstep pst0 p_state skipn]; apply IH; auto; lia.
+Qed.
+
+Theorem parse_kvslice_separators_only s :
+  Forall (fun c => c = 44%N \/ c = 59%N) s -> parse_kvslice s = KOk [].
+Proof. intros H. unfold parse_kvslice. apply parse_loop_separators; auto. Qed.
+
+Example parse_kvslice_degenerate_examples :
+  parse_kvslice (rs ";") = KOk [] /\ parse_kvslice (rs ",") = KOk [] /\
+  parse_kvslice (rs ";;,") = KOk [] /\ parse_kvslice (rs " ; ") = KOk [] /\
+  parse_kvslice (rs """""") = KOk [] /\ parse_kvslice (rs " ") = KOk [] /\
+  parse_kvslice (rs "''") = KOk [].
+Proof. vm_compute. repeat split. Qed.
+
+(* the ui.addr block of load(): an error or a call of parseListen, never a panic;
+   a non-empty value without a listener is the "only one listener" error *)
+Theorem ui_addr_step_never_panics v : ui_addr_step v <> Lib.Outcome.Panic.
+Proof.
+  unfold ui_addr_step. destruct v as [|c v]; [discriminate|].
+  pose proof (parse_kvslice_total (c :: v)) as Hg.
+  destruct (parse_kvslice (c :: v)) as [kvs|msg| |]; cbn in Hg; try contradiction; try discriminate.
+  destruct kvs as [|m [|m2 r]]; cbn; discriminate.
+Qed.
+
+Theorem ui_addr_step_no_listener v :
+  v <> [] -> parse_kvslice v = KOk [] -> ui_addr_step v = Lib.Outcome.Err 2%N.
+Proof. intros Hne H. unfold ui_addr_step. destruct v; [contradiction|]. rewrite H. reflexivity. Qed.
